@@ -264,14 +264,14 @@ def sync_table(ctx: Ctx, rule: str) -> None:
 
 
 def run(ctx: Ctx) -> None:
-    reverse_guard(ctx, "1")
-    T.t_a1(ctx, "1d/T.A1")
-    who_may_unset(ctx, "2")
-    sync_table(ctx, "3")
-    N.clean_decision_table(ctx, "4")
-    T.t_g5(ctx, "5/T.G5")
-    N.readiness_table(ctx, "6", "cleanup")
-    N.pick_agreement(ctx, "6p", "cleanup")
+    ctx.call(reverse_guard, "1")
+    ctx.call(T.t_a1, "1d/T.A1")
+    ctx.call(who_may_unset, "2")
+    ctx.call(sync_table, "3")
+    ctx.call(N.clean_decision_table, "4")
+    ctx.call(T.t_g5, "5/T.G5")
+    ctx.call(N.readiness_table, "6", "cleanup")
+    ctx.call(N.pick_agreement, "6p", "cleanup")
 
 
 G = "cartgraph/graph.py"
